@@ -8,8 +8,15 @@ mods_of = {}
 for f in sorted(glob.glob(os.path.join(V, "lean/Ezc3dVerif/Properties/C*.lean"))):
     pid = os.path.basename(f)[:3]          # C03.lean, C03b.lean -> C03
     src = open(f).read()
-    ns = re.search(r"^namespace (\S+)", src, re.M).group(1)
-    out.setdefault(pid, []).extend("%s.%s" % (ns, m) for m in re.findall(r"^theorem ([\w.?!']+)", src, re.M))
+    # theorem names qualified by the namespace that is open where they are stated (a file may open several in turn)
+    stack = []
+    for line in src.split("\n"):
+        m = re.match(r"^namespace (\S+)", line)
+        if m: stack.append(m.group(1)); continue
+        m = re.match(r"^end (\S+)", line)
+        if m and stack and stack[-1] == m.group(1): stack.pop(); continue
+        m = re.match(r"^theorem ([\w.?!']+)", line)
+        if m: out.setdefault(pid, []).append(".".join(stack + [m.group(1)]))
     mods_of.setdefault(pid, []).append("Ezc3dVerif.Properties." + os.path.basename(f)[:-5])
 out["_modules"] = mods_of
 json.dump(out, open(os.path.join(V, "lean/theorems.json"), "w"), indent=1)
